@@ -96,6 +96,10 @@ def run(ctx):
         # (b) traced runs
         runs = e2e.cached_runs(ctx, e2e.standard_grid(ctx.seed, ctx.thorough), "std")
         runs.append(e2e.traced_run({"N": 2, "W": 2, "K": 2, "beta": 1.0, "lengths": [30], "limit": 2, "m": 1, "data_seed": 1, "rng_seed": 1, "joint": False}))
+        # matrix-valued sparsity weights - symmetric, upper triangle only, different lower triangle - must reach the optimiser unchanged
+        runs += e2e.cached_runs(ctx, [{"N": N, "W": W, "K": 2, "beta": 2.0, "lam_matrix": kind, "limit": 2, "m": 2, "biased": bool(j % 2), "eps": 0,
+                                       "joint": j % 3 == 2, "lengths": [40, 30][: 1 + (j % 3 == 2)], "data_seed": 1200 + j, "rng_seed": 1200 + j, "regimes": 2}
+                                      for j, (N, W, kind) in enumerate([(2, 2, "sym"), (2, 2, "upper"), (1, 3, "asym"), (3, 1, "upper"), (2, 3, "asym")])], "c12lam")
         nstats = ntasks = after_repop = 0
         for r in runs:
             ctx.count("run")
@@ -134,10 +138,10 @@ def run(ctx):
                         else:
                             if a[0]["id"] != c["ec_id"] or a[0]["kind"] != "ndarray" or a[0]["value"].tobytes() != np.asarray(c["empirical_covariance"]).tobytes():
                                 probs.append("covariance argument is not the cluster's freshly computed empirical covariance")
-                            lam = cfg.get("lam", 0.11)
+                            lam = e2e.lam_of(cfg)
                             if isinstance(lam, np.ndarray):
-                                if a[1]["kind"] != "ndarray" or not np.array_equal(a[1]["value"], lam):
-                                    probs.append("sparsity weight changed")
+                                if a[1]["kind"] != "ndarray" or a[1]["value"].shape != lam.shape or not np.array_equal(a[1]["value"], lam):
+                                    probs.append("the matrix-valued sparsity weight handed to the optimiser is not the user's matrix (%s)" % cfg.get("lam_matrix"))
                             elif a[1]["kind"] == "ndarray" or float(a[1]["value"]) != float(lam):
                                 probs.append("sparsity weight %r instead of the user's %r" % (a[1]["value"], lam))
                             if a[2]["value"] != W:
